@@ -191,4 +191,10 @@ impl Freezer {
     pub fn verif_tip_hash(&self) -> Option<packed::Byte32> {
         self.inner.lock().tip.as_ref().map(|header| header.hash())
     }
+
+    /// verif-hooks: read-only, ids of the cached read handles of the files layer, most recently
+    /// used first
+    pub fn verif_cached_ids(&self) -> Vec<crate::freezer_files::FileId> {
+        self.inner.lock().files.verif_cached_ids()
+    }
 }
